@@ -46,6 +46,9 @@ def run(tier="quick", seed=0, replay=None):
         print(open(replay).read())
         return 1
     core.lean_stage(chk, "C17")
+    from harness import cover
+    _cv = cover.Cover(['ixai/explainer/pfi.py', 'ixai/explainer/sage/incremental.py'])
+    _cv.__enter__()
     quick = tier == "quick"
     reqs, impls = [], []
     nconf = 8 if quick else 60
@@ -131,6 +134,8 @@ def run(tier="quick", seed=0, replay=None):
                     break
     else:
         chk.tie_failure("driver", "model driver not built")
+    _cv.__exit__(None, None, None)
+    cover.gate(chk, _cv, only_functions=['IncrementalPFI.explain_one', 'IncrementalSage.explain_one'])
     chk.exhaustive = True
     chk.extra["explanation"] = ("failure_atomic theorems quantify over every oracle (every fault position and sequence) of the effectful model; "
                                 "the model is tied to pfi.py / incremental.py by enumerating every fault position of small configurations on the real "
